@@ -68,8 +68,9 @@ MANIFEST_ENTRY = {
             "message has every id in [0,2^53], every URI accepted by the regenerated pattern for its flags, every option of its "
             "checked type, an admissible element count and a known type code (parse_strict), re-marshalling an accepted message "
             "parses back to it under the stated residual conditions (reparse_equiv_partial); the six _URI_PAT_* / _CUSTOM_ATTRIBUTE / "
-            "realm regexes (regenerated from message.py) equal the intended grammar except for a trailing newline and non-ASCII "
-            "digits (uri_equiv_partial; F2 witnesses). The model is tied to the code on ~10^5 mutated structures per run, all URI "
+            "realm regexes (regenerated from message.py) equal the intended grammar for every string (uri_equiv, custom_attr_equiv, "
+            "realm_*_equiv: full since /repo 8a098028; F2 witnesses kept guarded by the generated anchor/class); the 13 forward_for "
+            "loops are for/else and their entries are checked in parse (forward_for_loops_repaired, parse_strict_forward_for). The model is tied to the code on ~10^5 mutated structures per run, all URI "
             "strings <= 4 over a 10-symbol alphabet for all flag triples, and mutated octet strings for 8 serializer configurations.",
     "note": "Trusted: Lean kernel; the hand-written schemas mirror message.py (checked only by the differential run); Python re "
             "and the serializer libraries. Findings on the unchanged tree are listed in known_findings.d/C08.jsonl.",
